@@ -14,7 +14,9 @@ EXTRA = {"C01-m11": ["C04"], "C04-m11": ["C11"], "C05-m11": ["C06"], "C13-m12": 
          "C03-m8": ["C01"], "C05-m7": ["C08", "C09"], "C05-m8": ["C19"], "C07-m7": ["C11"], "C08-m7": ["C10"],
          "C11-m7": ["C09"], "C02-m10": ["C19"],
          "C13-m14": ["C14"], "C08-m14": ["C10"], "C20-m13": ["C11", "C03"], "C03-m14": ["C20"], "C09-m14": ["C11"],
-         "C02-m13": ["C01", "C04"], "C01-m13": ["C03"]}
+         "C02-m13": ["C01", "C04"], "C01-m13": ["C03"],
+         "C01-m16": ["C03"], "C02-m15": ["C12"], "C05-m15": ["C06"], "C05-m16": ["C06"], "C07-m16": ["C13"], "C11-m16": ["C07"],
+         "C19-m15": ["C03"], "C19-m16": ["C02"], "C12-m17": ["C15"]}
 
 
 def main():
@@ -45,7 +47,7 @@ def main():
             if c not in checks:
                 checks.append(c)
         jobs.append((pid, str(d), name, checks, thorough))
-    logdir = Path("/tmp/seedlogs/final")
+    logdir = Path("/tmp/seedlogs/final2")
     logdir.mkdir(parents=True, exist_ok=True)
 
     def run(j):
